@@ -254,7 +254,7 @@ def rand_cmd(rng, ntrx):
 def _rand_cmd(rng, ntrx):
     """A well-formed command (documented verb or not, any argument count)."""
     r = rng.random()
-    f = rng.choice(FREQS + [rng.randint(1, 2000000)])
+    f = rng.choice(FREQS + [rng.randint(1, 2000000), 0])       # 0 kHz is a frequency like any other
     small = rng.choice([0, 1, 2, 3, -1, 5, 10, 63, -5, 127, -128, 255, 300, rng.randint(-2000, 2000)])
     table = [
         "POWERON", "POWEROFF", "RXTUNE %d" % f, "TXTUNE %d" % f, "MEASURE %d" % f,
@@ -344,6 +344,11 @@ def traffic_session(ctx, sid, prof, length=None):
     s = Session(sid, sim)
     n = len(sim.trx)
     gen = rand_burst_gen.RandBurstGen()
+    if rng.random() < (0.25 if prof == "C02" else 0.08):
+        # the L1 of one transceiver has died without POWEROFF: nobody listens on its data port any more
+        # (what the other transceivers get does not depend on that)
+        dt = rng.randrange(n)
+        sim.net.dead.add(sim.trx[dt].data_if.remote_port)
     hop = rng.random() < (0.5 if prof == "C02" else 0.15)
     setup_pair(s, rng, hop=hop)
     for t in range(2, n):                     # extra transceivers: tuned like the BTS / the MS, or elsewhere
